@@ -381,3 +381,15 @@ def run(ctx):
     if all(ok for (_g, _c, _w, ok, _d) in ef.checked_sites):
         ctx.check(len(ef.checked_sites) >= 3, "R16.4", "propagate:chain-length", main.loc(),
                   "propagation chain has %d links" % len(ef.checked_sites))
+
+
+_run_base = run
+
+
+def run(ctx):
+    _run_base(ctx)
+    prog = ctx.prog
+    ctx.rule("R16.6", "the look-back window is per stream: process_trace is evaluated on two streams; when the second "
+             "stream is started the window holds no event of the first")
+    from rules import round3
+    round3.check_ring_per_stream(ctx, "R16.6")
